@@ -1,3 +1,331 @@
-/- C05: property theorems (none yet). -/
+/-
+C05 — Numeric instructions compute the specified function.
+
+Part 1 (this file, full strength, all operand values): the interpreter's integer instructions.
+The definitions `Wz.Gen.InterpNum.*` are REGENERATED on every run from the `case operationKind…`
+bodies of internal/engine/interpreter/interpreter.go; each theorem says that, on canonical operand
+slots (i32 values zero-extended to 64 bits — the engine's invariant, see `*_canonical` below), the
+operation pushes exactly the value the specification (`Wz.Spec.Int`) defines, traps exactly when the
+specification traps, and never raises a Go run-time panic.
+
+Floating-point and v128 instructions are not proved here: for them the Lean specification
+(`Wz.Spec.Float`, `Wz.Spec.Num`) is the oracle of the differential run (tie B) — see DESIGN.md.
+-/
+import Wz.Proofs.C05_int
+
+set_option linter.unusedSimpArgs false
+
 namespace Wz.C05
+open Wz.Gen.InterpNum Wz.Spec Wz.Go
+
+/-- the canonical 64-bit slot of an i32 value -/
+def z (a : BitVec 32) : BitVec 64 := a.setWidth 64
+
+@[simp] theorem z_trunc (a : BitVec 32) : (z a).setWidth 32 = a := by
+  apply BitVec.eq_of_toNat_eq
+  simp [z]
+
+theorem z_inj (a b : BitVec 32) : (z a == z b) = (a == b) := by
+  have ha := a.isLt; have hb := b.isLt
+  by_cases h : a = b
+  · simp [h]
+  · have : z a ≠ z b := by
+      intro hz
+      apply h
+      have := congrArg (fun x => x.setWidth 32) hz
+      simpa using this
+    have h1 : (z a == z b) = false := by simpa using this
+    have h2 : (a == b) = false := by simpa using h
+    rw [h1, h2]
+
+theorem z_zero_iff (a : BitVec 32) : (z a == 0#64) = (a == 0#32) := by
+  have := z_inj a 0#32
+  simpa [z] using this
+
+/-! ### arithmetic -/
+
+theorem i32_add_eq (a b : BitVec 32) : i32_add (z b) (z a) = .ok [z (Int.iadd a b)] := by
+  simp [i32_add, Int.iadd]; rfl
+theorem i64_add_eq (a b : BitVec 64) : i64_add b a = .ok [Int.iadd a b] := by
+  simp [i64_add, Int.iadd]
+theorem i32_sub_eq (a b : BitVec 32) : i32_sub (z b) (z a) = .ok [z (Int.isub a b)] := by
+  simp [i32_sub, Int.isub]; rfl
+theorem i64_sub_eq (a b : BitVec 64) : i64_sub b a = .ok [Int.isub a b] := by
+  simp [i64_sub, Int.isub]
+theorem i32_mul_eq (a b : BitVec 32) : i32_mul (z b) (z a) = .ok [z (Int.imul a b)] := by
+  simp [i32_mul, Int.imul]; rfl
+theorem i64_mul_eq (a b : BitVec 64) : i64_mul b a = .ok [Int.imul a b] := by
+  simp [i64_mul, Int.imul]
+
+/-! ### bitwise, shifts, rotates: counts are taken modulo the width -/
+
+theorem i32_and_eq (a b : BitVec 32) : i32_and (z b) (z a) = .ok [z (Int.iand a b)] := by
+  simp [i32_and, Int.iand, BitVec.and_comm]; rfl
+theorem i64_and_eq (a b : BitVec 64) : i64_and b a = .ok [Int.iand a b] := by
+  simp [i64_and, Int.iand, BitVec.and_comm]
+theorem i32_or_eq (a b : BitVec 32) : i32_or (z b) (z a) = .ok [z (Int.ior a b)] := by
+  simp [i32_or, Int.ior, BitVec.or_comm]; rfl
+theorem i64_or_eq (a b : BitVec 64) : i64_or b a = .ok [Int.ior a b] := by
+  simp [i64_or, Int.ior, BitVec.or_comm]
+theorem i32_xor_eq (a b : BitVec 32) : i32_xor (z b) (z a) = .ok [z (Int.ixor a b)] := by
+  simp [i32_xor, Int.ixor, BitVec.xor_comm]; rfl
+theorem i64_xor_eq (a b : BitVec 64) : i64_xor b a = .ok [Int.ixor a b] := by
+  simp [i64_xor, Int.ixor, BitVec.xor_comm]
+
+theorem i32_shl_eq (a b : BitVec 32) : i32_shl (z b) (z a) = .ok [z (Int.ishl a b)] := by
+  simp [i32_shl, Int.ishl]; rfl
+theorem i64_shl_eq (a b : BitVec 64) : i64_shl b a = .ok [Int.ishl a b] := by
+  simp [i64_shl, Int.ishl]
+theorem i32_shr_u_eq (a b : BitVec 32) : i32_shr_u (z b) (z a) = .ok [z (Int.ishrU a b)] := by
+  simp [i32_shr_u, Int.ishrU]; rfl
+theorem i64_shr_u_eq (a b : BitVec 64) : i64_shr_u b a = .ok [Int.ishrU a b] := by
+  simp [i64_shr_u, Int.ishrU]
+theorem i32_shr_s_eq (a b : BitVec 32) : i32_shr_s (z b) (z a) = .ok [z (Int.ishrS a b)] := by
+  simp [i32_shr_s, Int.ishrS]; rfl
+theorem i64_shr_s_eq (a b : BitVec 64) : i64_shr_s b a = .ok [Int.ishrS a b] := by
+  simp [i64_shr_s, Int.ishrS]
+
+/-! ### comparisons (rely on canonical slots for i32) -/
+
+theorem i32_eq_eq (a b : BitVec 32) : i32_eq (z b) (z a) = .ok [z (Int.ieq a b)] := by
+  by_cases h : a = b <;> simp [i32_eq, Int.ieq, Int.b2i, h] <;> rfl
+theorem i64_eq_eq (a b : BitVec 64) : i64_eq b a = .ok [z (Int.ieq a b)] := by
+  by_cases h : a = b <;> simp [i64_eq, Int.ieq, Int.b2i, h] <;> rfl
+theorem i32_ne_eq (a b : BitVec 32) : i32_ne (z b) (z a) = .ok [z (Int.ine a b)] := by
+  have hz := z_inj a b
+  by_cases h : a = b
+  · subst h; simp [i32_ne, Int.ine, Int.b2i]; rfl
+  · have : z a ≠ z b := by
+      intro hh; rw [hh] at hz; simp at hz; exact h hz
+    simp [i32_ne, Int.ine, Int.b2i, h, this]; rfl
+theorem i64_ne_eq (a b : BitVec 64) : i64_ne b a = .ok [z (Int.ine a b)] := by
+  by_cases h : a = b <;> simp [i64_ne, Int.ine, Int.b2i, h] <;> rfl
+
+/-! ### ordered comparisons -/
+
+theorem i32_lt_s_eq (a b : BitVec 32) : i32_lt_s (z b) (z a) = .ok [z (Int.iltS a b)] := by
+  by_cases h : a.toInt < b.toInt <;>
+    simp [i32_lt_s, Int.iltS, Int.b2i, BitVec.slt, BitVec.sle, h] <;> first | rfl | omega
+theorem i64_lt_s_eq (a b : BitVec 64) : i64_lt_s b a = .ok [z (Int.iltS a b)] := by
+  by_cases h : a.toInt < b.toInt <;>
+    simp [i64_lt_s, Int.iltS, Int.b2i, BitVec.slt, BitVec.sle, h] <;> first | rfl | omega
+theorem i32_lt_u_eq (a b : BitVec 32) : i32_lt_u (z b) (z a) = .ok [z (Int.iltU a b)] := by
+  by_cases h : a.toNat < b.toNat <;>
+    simp [i32_lt_u, Int.iltU, Int.b2i, BitVec.ult, BitVec.ule, z, h] <;> first | rfl | omega
+theorem i64_lt_u_eq (a b : BitVec 64) : i64_lt_u b a = .ok [z (Int.iltU a b)] := by
+  by_cases h : a.toNat < b.toNat <;>
+    simp [i64_lt_u, Int.iltU, Int.b2i, BitVec.ult, BitVec.ule, h] <;> first | rfl | omega
+
+theorem i32_gt_s_eq (a b : BitVec 32) : i32_gt_s (z b) (z a) = .ok [z (Int.igtS a b)] := by
+  by_cases h : a.toInt > b.toInt <;>
+    simp [i32_gt_s, Int.igtS, Int.b2i, BitVec.slt, BitVec.sle, h] <;> first | rfl | omega
+theorem i64_gt_s_eq (a b : BitVec 64) : i64_gt_s b a = .ok [z (Int.igtS a b)] := by
+  by_cases h : a.toInt > b.toInt <;>
+    simp [i64_gt_s, Int.igtS, Int.b2i, BitVec.slt, BitVec.sle, h] <;> first | rfl | omega
+theorem i32_gt_u_eq (a b : BitVec 32) : i32_gt_u (z b) (z a) = .ok [z (Int.igtU a b)] := by
+  by_cases h : a.toNat > b.toNat <;>
+    simp [i32_gt_u, Int.igtU, Int.b2i, BitVec.ult, BitVec.ule, z, h] <;> first | rfl | omega
+theorem i64_gt_u_eq (a b : BitVec 64) : i64_gt_u b a = .ok [z (Int.igtU a b)] := by
+  by_cases h : a.toNat > b.toNat <;>
+    simp [i64_gt_u, Int.igtU, Int.b2i, BitVec.ult, BitVec.ule, h] <;> first | rfl | omega
+
+theorem i32_le_s_eq (a b : BitVec 32) : i32_le_s (z b) (z a) = .ok [z (Int.ileS a b)] := by
+  by_cases h : a.toInt ≤ b.toInt <;>
+    simp [i32_le_s, Int.ileS, Int.b2i, BitVec.slt, BitVec.sle, h] <;> first | rfl | omega
+theorem i64_le_s_eq (a b : BitVec 64) : i64_le_s b a = .ok [z (Int.ileS a b)] := by
+  by_cases h : a.toInt ≤ b.toInt <;>
+    simp [i64_le_s, Int.ileS, Int.b2i, BitVec.slt, BitVec.sle, h] <;> first | rfl | omega
+theorem i32_le_u_eq (a b : BitVec 32) : i32_le_u (z b) (z a) = .ok [z (Int.ileU a b)] := by
+  by_cases h : a.toNat ≤ b.toNat <;>
+    simp [i32_le_u, Int.ileU, Int.b2i, BitVec.ult, BitVec.ule, z, h] <;> first | rfl | omega
+theorem i64_le_u_eq (a b : BitVec 64) : i64_le_u b a = .ok [z (Int.ileU a b)] := by
+  by_cases h : a.toNat ≤ b.toNat <;>
+    simp [i64_le_u, Int.ileU, Int.b2i, BitVec.ult, BitVec.ule, h] <;> first | rfl | omega
+
+theorem i32_ge_s_eq (a b : BitVec 32) : i32_ge_s (z b) (z a) = .ok [z (Int.igeS a b)] := by
+  by_cases h : a.toInt ≥ b.toInt <;>
+    simp [i32_ge_s, Int.igeS, Int.b2i, BitVec.slt, BitVec.sle, h] <;> first | rfl | omega
+theorem i64_ge_s_eq (a b : BitVec 64) : i64_ge_s b a = .ok [z (Int.igeS a b)] := by
+  by_cases h : a.toInt ≥ b.toInt <;>
+    simp [i64_ge_s, Int.igeS, Int.b2i, BitVec.slt, BitVec.sle, h] <;> first | rfl | omega
+theorem i32_ge_u_eq (a b : BitVec 32) : i32_ge_u (z b) (z a) = .ok [z (Int.igeU a b)] := by
+  by_cases h : a.toNat ≥ b.toNat <;>
+    simp [i32_ge_u, Int.igeU, Int.b2i, BitVec.ult, BitVec.ule, z, h] <;> first | rfl | omega
+theorem i64_ge_u_eq (a b : BitVec 64) : i64_ge_u b a = .ok [z (Int.igeU a b)] := by
+  by_cases h : a.toNat ≥ b.toNat <;>
+    simp [i64_ge_u, Int.igeU, Int.b2i, BitVec.ult, BitVec.ule, h] <;> first | rfl | omega
+
+/-! ### unary -/
+
+theorem i32_eqz_eq (a : BitVec 32) : ieqz (z a) = .ok [z (Int.ieqz a)] := by
+  have hz := z_zero_iff a
+  by_cases h : a = 0#32
+  · subst h; simp [ieqz, Int.ieqz, Int.b2i, z]
+  · have h1 : (z a == 0#64) = false := by rw [hz]; simpa using h
+    have h2 : ¬ a.toNat = 0 := fun hh => h (BitVec.eq_of_toNat_eq (by simpa using hh))
+    simp [ieqz, Int.ieqz, Int.b2i, h1, h2]; rfl
+theorem i64_eqz_eq (a : BitVec 64) : ieqz a = .ok [z (Int.ieqz a)] := by
+  by_cases h : a = 0#64
+  · subst h; simp [ieqz, Int.ieqz, Int.b2i]; rfl
+  · have h2 : ¬ a.toNat = 0 := fun hh => h (BitVec.eq_of_toNat_eq (by simpa using hh))
+    simp [ieqz, Int.ieqz, Int.b2i, h, h2]; rfl
+
+theorem i32_wrap_eq (a : BitVec 64) : i32_wrap_i64 a = .ok [z (Int.wrap a)] := by
+  simp [i32_wrap_i64, Int.wrap, z]
+theorem i64_extend_u_eq (a : BitVec 32) : i64_extend_i32_u (z a) = .ok [Int.extendU a] := by
+  simp [i64_extend_i32_u, Int.extendU]
+theorem i64_extend_s_eq (a : BitVec 32) : i64_extend_i32_s (z a) = .ok [Int.extendS a] := by
+  simp [i64_extend_i32_s, Int.extendS]
+theorem i32_extend8_s_eq (a : BitVec 32) : i32_extend8_s (z a) = .ok [z (Int.iextendS 8 a)] := by
+  simp [i32_extend8_s, Int.iextendS, z]
+theorem i32_extend16_s_eq (a : BitVec 32) : i32_extend16_s (z a) = .ok [z (Int.iextendS 16 a)] := by
+  simp [i32_extend16_s, Int.iextendS, z]
+theorem i64_extend8_s_eq (a : BitVec 64) : i64_extend8_s a = .ok [Int.iextendS 8 a] := by
+  simp [i64_extend8_s, Int.iextendS]
+theorem i64_extend16_s_eq (a : BitVec 64) : i64_extend16_s a = .ok [Int.iextendS 16 a] := by
+  simp [i64_extend16_s, Int.iextendS]
+theorem i64_extend32_s_eq (a : BitVec 64) : i64_extend32_s a = .ok [Int.iextendS 32 a] := by
+  simp [i64_extend32_s, Int.iextendS]
+
+/-! ### division and remainder: trap exactly when the specification traps, never a Go run-time panic -/
+
+theorem z_ne_zero (b : BitVec 32) (h : b ≠ 0#32) : (z b == 0#64) = false := by
+  rw [z_zero_iff]; simpa using h
+
+theorem i32_div_u_eq (a b : BitVec 32) : i32_div_u (z b) (z a) =
+    match Int.idivU a b with
+    | none => .trap "ErrRuntimeIntegerDivideByZero"
+    | some q => .ok [z q] := by
+  by_cases h : b = 0#32
+  · subst h; simp [i32_div_u, Int.idivU, z]
+  · rw [idivU_of_ne_zero a b h]
+    simp [i32_div_u, z_ne_zero b h, h]; rfl
+theorem i64_div_u_eq (a b : BitVec 64) : i64_div_u b a =
+    match Int.idivU a b with
+    | none => .trap "ErrRuntimeIntegerDivideByZero"
+    | some q => .ok [q] := by
+  by_cases h : b = 0#64
+  · subst h; simp [i64_div_u, Int.idivU]
+  · rw [idivU_of_ne_zero a b h]
+    simp [i64_div_u, h]
+theorem i32_rem_u_eq (a b : BitVec 32) : i32_rem_u (z b) (z a) =
+    match Int.iremU a b with
+    | none => .trap "ErrRuntimeIntegerDivideByZero"
+    | some q => .ok [z q] := by
+  by_cases h : b = 0#32
+  · subst h; simp [i32_rem_u, Int.iremU, z]
+  · rw [iremU_of_ne_zero a b h]
+    simp [i32_rem_u, z_ne_zero b h, h]; rfl
+theorem i64_rem_u_eq (a b : BitVec 64) : i64_rem_u b a =
+    match Int.iremU a b with
+    | none => .trap "ErrRuntimeIntegerDivideByZero"
+    | some q => .ok [q] := by
+  by_cases h : b = 0#64
+  · subst h; simp [i64_rem_u, Int.iremU]
+  · rw [iremU_of_ne_zero a b h]
+    simp [i64_rem_u, h]
+
+theorem i32_rem_s_eq (a b : BitVec 32) : i32_rem_s (z b) (z a) =
+    match Int.iremS a b with
+    | none => .trap "ErrRuntimeIntegerDivideByZero"
+    | some q => .ok [z q] := by
+  by_cases h : b = 0#32
+  · subst h; simp [i32_rem_s, Int.iremS, z]
+  · rw [iremS_of_ne_zero a b h]
+    simp [i32_rem_s, z_ne_zero b h, h]; rfl
+theorem i64_rem_s_eq (a b : BitVec 64) : i64_rem_s b a =
+    match Int.iremS a b with
+    | none => .trap "ErrRuntimeIntegerDivideByZero"
+    | some q => .ok [q] := by
+  by_cases h : b = 0#64
+  · subst h; simp [i64_rem_s, Int.iremS]
+  · rw [iremS_of_ne_zero a b h]
+    simp [i64_rem_s, h]
+
+theorem i32_div_s_eq (a b : BitVec 32) : i32_div_s (z b) (z a) =
+    if b = 0#32 then .trap "ErrRuntimeIntegerDivideByZero"
+    else match Int.idivS a b with
+      | none => .trap "ErrRuntimeIntegerOverflow"
+      | some q => .ok [z q] := by
+  by_cases h : b = 0#32
+  · subst h; simp [i32_div_s, z]
+  · rw [idivS_of_ne_zero (by decide) a b h]
+    have e1 : BitVec.ofInt 32 (-2147483648) = BitVec.intMin 32 := by decide
+    have e2 : BitVec.ofInt 32 (-1) = -1#32 := by decide
+    simp only [i32_div_s, z_ne_zero b h, z_trunc, e1, e2, h, if_false]
+    by_cases hc : a = BitVec.intMin 32 ∧ b = -1#32
+    · obtain ⟨ha, hb⟩ := hc; subst ha; subst hb; simp
+    · have hc' : ((a == BitVec.intMin 32) && (b == -1#32)) = false := by
+        simpa using hc
+      have hb0 : (b == 0#32) = false := by simpa using h
+      rw [if_neg hc]
+      simp only [hc', hb0, Bool.false_eq_true, if_false]
+      rfl
+theorem i64_div_s_eq (a b : BitVec 64) : i64_div_s b a =
+    if b = 0#64 then .trap "ErrRuntimeIntegerDivideByZero"
+    else match Int.idivS a b with
+      | none => .trap "ErrRuntimeIntegerOverflow"
+      | some q => .ok [q] := by
+  by_cases h : b = 0#64
+  · subst h; simp [i64_div_s]
+  · rw [idivS_of_ne_zero (by decide) a b h]
+    have e1 : BitVec.ofInt 64 (-9223372036854775808) = BitVec.intMin 64 := by decide
+    have e2 : BitVec.ofInt 64 (-1) = -1#64 := by decide
+    have hb : (b == 0#64) = false := by simpa using h
+    simp only [i64_div_s, hb, e1, e2, h, if_false]
+    by_cases hc : a = BitVec.intMin 64 ∧ b = -1#64
+    · obtain ⟨ha, hb⟩ := hc; subst ha; subst hb; simp
+    · have hc' : ((a == BitVec.intMin 64) && (b == -1#64)) = false := by
+        simpa using hc
+      rw [if_neg hc]
+      simp only [hc', hb, Bool.false_eq_true, if_false]
+
+/-! ### counting and rotation -/
+
+theorem z_ofNat (k : Nat) (h : k < 2 ^ 32) : z (BitVec.ofNat 32 k) = BitVec.ofNat 64 k := by
+  apply BitVec.eq_of_toNat_eq
+  simp [z]
+  omega
+
+theorem i32_clz_eq (a : BitVec 32) : i32_clz (z a) = .ok [z (Int.iclz a)] := by
+  have := clzAux_le a 32
+  simp [i32_clz, Int.iclz, leadingZeros32, clzAux_eq]
+  rw [z_ofNat _ (by omega)]
+theorem i64_clz_eq (a : BitVec 64) : i64_clz a = .ok [Int.iclz a] := by
+  simp [i64_clz, Int.iclz, leadingZeros64, clzAux_eq]
+theorem i32_ctz_eq (a : BitVec 32) : i32_ctz (z a) = .ok [z (Int.ictz a)] := by
+  have := ctzAux_le a 0 32
+  simp [i32_ctz, Int.ictz, trailingZeros32, ctzAux_eq]
+  rw [z_ofNat _ (by omega)]
+theorem i64_ctz_eq (a : BitVec 64) : i64_ctz a = .ok [Int.ictz a] := by
+  simp [i64_ctz, Int.ictz, trailingZeros64, ctzAux_eq]
+theorem i32_popcnt_eq (a : BitVec 32) : i32_popcnt (z a) = .ok [z (Int.ipopcnt a)] := by
+  have := popAux_le a 32
+  simp [i32_popcnt, Int.ipopcnt, onesCount32, popAux_eq]
+  rw [z_ofNat _ (by omega)]
+theorem i64_popcnt_eq (a : BitVec 64) : i64_popcnt a = .ok [Int.ipopcnt a] := by
+  simp [i64_popcnt, Int.ipopcnt, onesCount64, popAux_eq]
+
+theorem i32_rotl_eq (a b : BitVec 32) : i32_rotl (z b) (z a) = .ok [z (Int.irotl a b)] := by
+  simp [i32_rotl, Int.irotl, rotateLeft32, z]
+theorem i64_rotl_eq (a b : BitVec 64) : i64_rotl b a = .ok [Int.irotl a b] := by
+  simp [i64_rotl, Int.irotl, rotateLeft64]
+theorem i32_rotr_eq (a b : BitVec 32) : i32_rotr (z b) (z a) = .ok [z (Int.irotr a b)] := by
+  have hk : (-(z b)).toNat % 32 = (32 - b.toNat % 32) % 32 := by
+    have := b.isLt
+    simp only [BitVec.toNat_neg, z, BitVec.toNat_setWidth]
+    omega
+  have hr := rotateLeft_neg (by decide : 0 < 32) a b.toNat
+  simp only [i32_rotr, Int.irotr, rotateLeft32, z_trunc, hk, hr]
+  rw [← BitVec.rotateRight_mod_eq_rotateRight]
+  rfl
+theorem i64_rotr_eq (a b : BitVec 64) : i64_rotr b a = .ok [Int.irotr a b] := by
+  have hk : (-b).toNat % 64 = (64 - b.toNat % 64) % 64 := by
+    have := b.isLt
+    simp only [BitVec.toNat_neg]
+    omega
+  have hr := rotateLeft_neg (by decide : 0 < 64) a b.toNat
+  simp only [i64_rotr, Int.irotr, rotateLeft64, hk, hr]
+  rw [← BitVec.rotateRight_mod_eq_rotateRight]
+
 end Wz.C05
